@@ -4,8 +4,8 @@ For small real projects with every cross-file feature switched on (duplicate cod
 chains, stringly-typed), the multiset of violations must be the same
   (a) for every ORDER of the file list (all permutations of 3-4 files),
   (b) for two interpreter HASH SEEDS (sub-processes with PYTHONHASHSEED=1 / 2),
-  (c) on a SECOND call of the same Orchestrator object, for the per-file rules (cross-file rules are excluded here:
-      their history dependence is the recorded finding C08-dry-finalize-keeps-evidence),
+  (c) on a SECOND call of the same Orchestrator object (all rules), and a used object must answer a later call on a
+      subset of the files exactly like a fresh one (history independence; fixed defect C08-dry-finalize-keeps-evidence),
 and a run must leave the project directory untouched and no temporary files behind (both DRY storage modes)."""
 from pyvc.api import custom
 
@@ -77,7 +77,7 @@ def order_history_effects_bounded(ctx):
     import subprocess
     import sys
     import tempfile
-    n = 6 if ctx.get("tier", "quick") == "quick" else 40
+    n = 4 if ctx.get("tier", "quick") == "quick" else 40
     rng = random.Random(15485863 * int(ctx.get("seed", 0)) + 8)
     name = "custom:c08-order-history-effects-bounded/permutations-hashseeds-second-call-side-effects"
     from pyvc import native as _native
@@ -132,13 +132,21 @@ def order_history_effects_bounded(ctx):
                         return bad("the violations depend on the ORDER of the file list / the DRY storage mode",
                                    {"files": {f: texts[f][:80] for f in files}, "order_a": ref[0], "order_b": perm, "storage_mode": mode,
                                     "only_a": sorted(map(str, (ref[1] - got).keys())), "only_b": sorted(map(str, (got - ref[1]).keys()))})
-                    # (c) second call on the same object: per-file rules only
+                    # (c) second call on the same object: every rule, cross-file rules included (finalize() re-establishes
+                    # Clean); then a call on a SUBSET of the files must equal a fresh object's answer for that subset
                     again = _key(o.lint_files([pathlib.Path(root) / f for f in perm]), root)
-                    pf = lambda c: {k: v for k, v in c.items() if not k[0].startswith("dry") and not k[0].startswith("stringly")}  # noqa: E731
-                    if pf(again) != pf(got):
-                        return bad("a second call on the same Orchestrator differs from the first (per-file rules)",
-                                   {"order": perm, "first_only": sorted(map(str, set(pf(got)) - set(pf(again)))),
-                                    "second_only": sorted(map(str, set(pf(again)) - set(pf(got))))})
+                    if again != got:
+                        return bad("a second call on the same Orchestrator differs from the first",
+                                   {"order": perm, "first_only": sorted(map(str, (got - again).keys())),
+                                    "second_only": sorted(map(str, (again - got).keys()))})
+                    subset = [pathlib.Path(root) / f for f in perm[:-1]]
+                    used = _key(o.lint_files(subset), root)
+                    fresh = _key(Orchestrator(project_root=pathlib.Path(root), config=cfg).lint_files(subset), root)
+                    cases += 1
+                    if used != fresh:
+                        return bad("an Orchestrator that was used before answers differently from a fresh one (history dependence)",
+                                   {"first_call": perm, "second_call": perm[:-1], "used_only": sorted(map(str, (used - fresh).keys())),
+                                    "fresh_only": sorted(map(str, (fresh - used).keys()))})
                     del o
                     gc.collect()
                     after = _snapshot(root)
@@ -180,5 +188,5 @@ def order_history_effects_bounded(ctx):
             pass
     return [dict(name=name, kind="bounded", verdict="passed", carries=True, tool="native runs on small real projects (tempfile.mkdtemp, removed)",
                  budget=f"{n} projects x all permutations (memory) / 2 orders (tempfile) + 2 hash seeds, seed {ctx.get('seed', 0)}",
-                 cases=cases, note=f"{cases} runs: same multiset for every order, storage mode and hash seed; second call agrees for "
-                                   f"per-file rules; project directory untouched; no temporary files left")]
+                 cases=cases, note=f"{cases} runs: same multiset for every order, storage mode and hash seed; a used object answers like a fresh "
+                                   f"one; project directory untouched; no temporary files left")]
